@@ -259,7 +259,7 @@ pub fn inject(endpoint: &Endpoint, tp: &TpHandle, source: SocketAddr, bytes: &[u
 // ------------------------------------------------------------------------------------------
 // recording / policy layer
 
-#[derive(Clone, Copy, Debug, PartialEq, Eq, serde::Serialize, serde::Deserialize)]
+#[derive(Clone, Copy, Debug, PartialEq, Eq, Hash, serde::Serialize, serde::Deserialize)]
 pub enum Policy {
     /// does not look at the request
     Ignore,
